@@ -79,6 +79,7 @@ impl Runner for TalkRunner {
             ["tnew", key] => {
                 let Some(seed) = key.strip_prefix('k').and_then(|s| s.parse::<u64>().ok()) else { return noop(out) };
                 self.reset();
+                discv5::verif::limiter::permit_ban_reset();
                 let Some(enr) = build_rec(seed, 1, "4", 0) else { return noop(out) };
                 let rt = self.r.rt.as_ref().unwrap();
                 let Some(inst) = Inst::start(rt, 'T', seed, enr, IpMode::Ip4, Filter::All, 16, 16, false, 10) else { return noop(out) };
@@ -94,6 +95,25 @@ impl Runner for TalkRunner {
                 let Some(enr) = build_rec(seed, 1, shape, 0) else { return noop(out) };
                 let _ = self.r.insts[&'T'].discv5.add_enr(enr);
                 stats.bump("t.known-peer");
+                out.push("!OP tnop".into());
+                out.push("noop".into());
+            }
+            // the application (or the service itself) bans a requester while its request is still held:
+            // what the peer is sent for that request does not depend on it
+            ["tban", peer, what] => {
+                let Some(id) = parse_peer(peer) else { return noop(out) };
+                let node_id = NodeId::new(&id);
+                let inst = &self.r.insts[&'T'];
+                match *what {
+                    "node" => inst.discv5.ban_node(&node_id, None),
+                    "ip" => {
+                        for (_, s, _) in self.meta.iter().filter(|(_, s, _)| s.node_id == node_id) {
+                            inst.discv5.ban_ip(s.socket_addr.ip(), None);
+                        }
+                    }
+                    _ => return noop(out),
+                }
+                stats.bump("t.requester-banned-while-held");
                 out.push("!OP tnop".into());
                 out.push("noop".into());
             }
@@ -326,8 +346,10 @@ pub fn gen_case(rng: &mut Rng, tier: &str, _profile: &str, stats: &mut Stats) ->
             };
             let payload = hx(&rng.bytes(n));
             ops.push(format!("trespond #{} {}", rng.range(1, delivered), payload));
-        } else if c < 92 {
+        } else if c < 90 {
             ops.push(format!("tdrop #{}{}", rng.range(1, delivered), if rng.chance(1, 4) { " unwinding" } else { "" }));
+        } else if c < 94 {
+            ops.push(format!("tban k{} {}", rng.range(100, 104), if rng.chance(2, 3) { "node" } else { "ip" }));
         } else if !shut {
             ops.push("tshutdown".into());
             shut = true;
